@@ -23,6 +23,11 @@ def shards(mode, bin_, n, **kw):
 
 
 PROPS = {
+    "C02": {
+        "runs": [{"mode": "native-dev", "bin": "c02"}],
+        "expect_monitors": ["conversion_vs_model"],
+        "assumptions": ASSUME_COMMON + ["published definitions as typed in harness/src/refmodel (CIE 15, RGB standards, Smith hexcone, Ottosson's ok_color.h, hsluv.org rev 4); events whose model image has negative linear light in an RGB-based space are outside the definitions and not judged"],
+    },
     "C07": {
         "runs": [{"mode": "native-dev", "bin": "c07"}],
         "expect_monitors": ["finite_conversions", "finite_clamp"],
